@@ -1025,3 +1025,78 @@ Definition kcase_ok (c : kcase) : bool :=
   | OCap => match o with ONone => true | _ => Nat.ltb CAP (pulls s) end
   | v => obs_eqb o v && Nat.eqb (pulls s) (k_pulls c) && Nat.eqb (ticks s) (k_ticks c) && Nat.leb (pulls s) CAP
   end.
+
+(* ---- yaql.limitIterators = n ------------------------------------------------------------------------ *)
+(* every parameter declared yaqltypes.Iterable()/Iterator() is passed through limit_iterable: a sequence or set
+   longer than n is refused at the call, an iterator is wrapped so that its (n+1)-th element is pulled and
+   refused; the finaliser applies the same limit to the result at every nesting level.  Modelled for the
+   functions whose only iterable parameter is the receiver (the harness generates no others under a limit). *)
+Fixpoint lim_ok (n : nat) (v : val) : bool :=
+  match v with VList _ l => Nat.leb (length l) n && forallb (lim_ok n) l | _ => true end.
+
+Definition limit_rv (n : nat) (r : rv) : res rv :=
+  match r with
+  | RVal (VList _ l) => if Nat.ltb n (length l) then Err ETooLarge else Ok r
+  | RSet l => if Nat.ltb n (length l) then Err ETooLarge else Ok r
+  | RIter i => Ok (RIter (Limit n i))
+  | ROrd keys i => Ok (RIter (Limit n (Collect (CSort keys) [] i)))
+  | _ => Ok r
+  end.
+
+Definition apply_stage_lim (n fuel : nat) (s : st) (sg : stage) (r : rv) : rr :=
+  match sg, r with
+  | SLen, RVal _ | SInsert _ _, RVal _ => apply_stage fuel s sg r      (* typed Sequence(): not limited *)
+  | _, _ => match limit_rv n r with
+            | Ok r' => apply_stage fuel s sg r'
+            | Err e => (s, Err e)
+            | _ => (s, Unsupported)
+            end
+  end.
+
+Fixpoint apply_stages_lim (n fuel : nat) (s : st) (sgs : list stage) (r : rv) : rr :=
+  match sgs with
+  | [] => (s, Ok r)
+  | sg :: rest => match apply_stage_lim n fuel s sg r with
+                  | (s1, Ok r1) => apply_stages_lim n fuel s1 rest r1
+                  | e => e
+                  end
+  end.
+
+Definition finalize_lim (n fuel : nat) (s : st) (r : rv) : st * obs :=
+  match r with
+  | RVal v => if lim_ok n v then (s, OVal (erase v)) else (s, OErr ETooLarge)
+  | RIter _ | ROrd _ _ =>
+      match limit_rv n r with
+      | Ok (RIter i) => match drain fuel s i with
+                        | (s1, Ok l) => if forallb (lim_ok n) l then (s1, OVal (VList false (map erase l))) else (s1, OErr ETooLarge)
+                        | (s1, Err e) => (s1, OErr e)
+                        | (s1, _) => (s1, ONone)
+                        end
+      | _ => (s, ONone)
+      end
+  | _ => (s, ONone)
+  end.
+
+Definition eval_case_lim (n : nat) (src : source) (sgs : list stage) : st * obs :=
+  match source_rv src with
+  | Ok r => match apply_stages_lim n FUEL st0 sgs r with
+            | (s, Ok r1) => finalize_lim n FUEL s r1
+            | (s, Err e) => (s, OErr e)
+            | (s, _) => (s, ONone)
+            end
+  | Err e => (st0, OErr e)
+  | _ => (st0, ONone)
+  end.
+
+Record lcase := { l_lim : nat; l_src : source; l_stages : list stage; l_obs : obs }.
+Definition lcase_ok (c : lcase) : bool := obs_eqb (snd (eval_case_lim (l_lim c) (l_src c) (l_stages c))) (l_obs c).
+
+(* the same over the instrumented endless source: values, pulls and lambda applications under the limit *)
+Record lkcase := { lk_lim : nat; lk_start : Z; lk_stages : list stage; lk_take : nat;
+                   lk_vals : obs; lk_pulls : nat; lk_ticks : nat }.
+Definition lkcase_ok (c : lkcase) : bool :=
+  let '(s, o) := eval_case_lim (lk_lim c) (SrcSequence (lk_start c)) (lk_stages c ++ [STake (Z.of_nat (lk_take c))]) in
+  match lk_vals c with
+  | OCap => match o with ONone => true | _ => Nat.ltb CAP (pulls s) end
+  | v => obs_eqb o v && Nat.eqb (pulls s) (lk_pulls c) && Nat.eqb (ticks s) (lk_ticks c)
+  end.
